@@ -186,7 +186,11 @@ pub trait MysqlShim<W: Read + Write> {
     ) -> Result<(), Self::Error>;
 
     /// Called when client switches database.
-    fn on_init(&mut self, _: &str, _: InitWriter<'_, W>) -> Result<(), Self::Error> {
+    ///
+    /// The client waits for a reply to this command; the default implementation accepts the
+    /// switch.
+    fn on_init(&mut self, _: &str, w: InitWriter<'_, W>) -> Result<(), Self::Error> {
+        w.ok()?;
         Ok(())
     }
 
